@@ -182,6 +182,53 @@ pub fn eval_input(i: &Input, obs: &mut Obs) -> Result<(), Fail> {
     }
     let _ = drive::decode_fn(&stream);
     let cap_fail = |m: String| Fail::new("does-not-terminate", format!("{m}; stream = {}", hex_short(&stream, 120)));
+    // (iv-b) the reader front-ends over a source that fails: one hard error and one would-block at positions
+    // derived from the stream (the second directly at a transmission boundary in half of the cases), through
+    // read / next / read_nb / next_nb over io::Read and over the embedded-hal source. "Every failure is reported
+    // as an error value": each scripted hard error must come back as exactly one I/O error, each would-block
+    // as exactly one would-block - never as a payload, as end of input, or not at all.
+    if stream.len() < 4096 {
+        use crate::drive::{Ev, Step};
+        let n = stream.len();
+        let h = crate::util::fnv64(&stream) as usize;
+        let p_other = if h % 2 == 0 { 0 } else { (h >> 8) % (n + 1) };
+        let p_wb = (h >> 24) % (n + 1);
+        let mut script: Vec<Step> = Vec::with_capacity(n + 2);
+        for (k, b) in stream.iter().enumerate() {
+            if k == p_wb {
+                script.push(Step::WouldBlock);
+            }
+            if k == p_other {
+                script.push(Step::Other((h >> 40) as u8 % 6));
+            }
+            script.push(Step::Byte(*b));
+        }
+        if p_wb == n {
+            script.push(Step::WouldBlock);
+        }
+        if p_other == n {
+            script.push(Step::Other((h >> 40) as u8 % 6));
+        }
+        for api in 0u8..5 {
+            let fe = crate::props::c11::Fe { api, poll_next: (h >> (48 + api)) & 1 == 1, cap: None };
+            let evs = crate::props::c11::run_cfg(fe, &script).map_err(|m| Fail::new("does-not-terminate", format!("{}: {m}; stream = {}", crate::props::c11::fe_name(fe), hex_short(&stream, 120))))?;
+            let hard = evs.iter().filter(|e| matches!(e.1, Ev::IoOther(..))).count();
+            let soft = evs.iter().filter(|e| matches!(e.1, Ev::IoWouldBlock(_))).count();
+            ensure!(
+                hard == 1 && soft == 1,
+                "source-failure-not-reported-as-error-value",
+                "{}: the source reported one hard error (before byte {}) and one would-block (before byte {}), the reader returned {} I/O error(s) and {} would-block(s): {}\nstream = {}",
+                crate::props::c11::fe_name(fe),
+                p_other,
+                p_wb,
+                hard,
+                soft,
+                drive::show_pos(&evs),
+                hex_short(&stream, 120)
+            );
+        }
+        obs.class("readers:with-source-failures");
+    }
     match i.cap {
         None => {
             drive::decode_streaming_fn::<VecK>(&stream, 3).map_err(cap_fail)?;
